@@ -356,6 +356,8 @@ def run_census(ck, F):
 
 def run(ck, tier):
     F = factsmod.Facts("ws")
+    from . import influence as _infl
+    _infl.run(ck, F, 'C08')
     run_census(ck, F)
     run_utf8_flag(ck, F)
     run_csv(ck, F)
